@@ -23,6 +23,13 @@
 //                              buffer, IV counted up in its buffer, plaintext buffer reused), then calls with slices of
 //                              those arrays  -> ok <r1>,<r2>,... <mem>   r = <x>/<t> or <h>; mem = 1 iff no call changed
 //                              any of the four backing arrays (incl. the bytes behind the slices)
+//   T id steps                 CONSUMER leg: the SM4-GCM AEAD of the GM TLS cipher suites (gmtls/gm_support.go), through the hook
+//                              gmtls/verif_gcmsuites_verif.go.  steps = how:key:fixed:explicit:aad:pt,...  how = d (aeadSM4GCM called
+//                              directly) or a suite id in hex (looked up through gmCipherSuites / mutualCipherSuiteGM).  One AEAD
+//                              object per (how, key, fixed) is built when first needed in the history and reused afterwards.
+//                              Per step: sealed = Seal(explicit, pt, aad); o1 = 1 iff Open of the record made by
+//                              sm4.Sm4GCM(key, fixed||explicit, pt, aad) returns pt; o2 = 1 iff an AEAD built for the same key with
+//                              one bit of the implicit nonce flipped REJECTS that record   -> ok <sealed>/<o1>/<o2>,...
 // Observation lines:  id ok <fields> | id err | id PANIC | id HANG
 package main
 
@@ -35,6 +42,7 @@ import (
 	"strings"
 	"time"
 
+	"github.com/tjfoc/gmsm/gmtls"
 	"github.com/tjfoc/gmsm/sm4"
 	"verifharness/internal/hx"
 )
@@ -144,6 +152,51 @@ func runCase(line string) string {
 				}
 			}
 			return "ok " + strings.Join(outs, ",") + " " + b2s(mem)
+		case "T":
+			objs := map[string]cipher.AEAD{}
+			build := func(how string, key, fixed []byte) cipher.AEAD {
+				if how == "d" {
+					return gmtls.VerifAEADSM4GCM(key, fixed)
+				}
+				id, _ := strconv.ParseUint(how, 16, 16)
+				a, keyLen, ivLen, ok := gmtls.VerifGMSuiteAEAD(uint16(id), key, fixed)
+				if !ok || keyLen != 16 || ivLen != 4 {
+					return nil
+				}
+				return a
+			}
+			var outs []string
+			for _, st := range strings.Split(f[2], ",") {
+				q := strings.Split(st, ":")
+				how, key, fixed, explicit, aad, pt := q[0], hx.UnHex(q[1]), hx.UnHex(q[2]), hx.UnHex(q[3]), hx.UnHex(q[4]), hx.UnHex(q[5])
+				name := q[0] + ":" + q[1] + ":" + q[2]
+				a := objs[name]
+				if a == nil {
+					a = build(how, append([]byte{}, key...), append([]byte{}, fixed...))
+					if a == nil {
+						return "err"
+					}
+					objs[name] = a
+				}
+				sealed := a.Seal(nil, explicit, pt, aad)
+				// the record sm4.Sm4GCM makes for IV = implicit || explicit
+				iv := append(append([]byte{}, fixed...), explicit...)
+				C, T, err := sm4.Sm4GCM(append([]byte{}, key...), iv, pt, aad, true)
+				if err != nil {
+					return "err"
+				}
+				ref := append(append([]byte{}, C...), T...)
+				got, oerr := a.Open(nil, explicit, append([]byte{}, ref...), aad)
+				o1 := oerr == nil && bytes.Equal(got, pt)
+				other := build(how, append([]byte{}, key...), flip(fixed, 7))
+				o2 := false
+				if other != nil {
+					_, e2 := other.Open(nil, explicit, append([]byte{}, ref...), aad)
+					o2 = e2 != nil
+				}
+				outs = append(outs, hx.Hex(sealed)+"/"+b2s(o1)+"/"+b2s(o2))
+			}
+			return "ok " + strings.Join(outs, ",")
 		case "V":
 			P, T, err := sm4.Sm4GCM(hx.UnHex(f[2]), hx.UnHex(f[3]), hx.UnHex(f[5]), hx.UnHex(f[4]), false)
 			if err != nil {
@@ -426,6 +479,53 @@ func gen(seed uint64, tier string, o *hx.Out) {
 			calls = append(calls, fmt.Sprintf("%s:%s:%s:%s:%s", fn, hx.Hex(key), hx.Hex(iv), hx.Hex(a), hx.Hex(x)))
 		}
 		emit(fmt.Sprintf("Q %d %s", next(), strings.Join(calls, ",")))
+	}
+	// CONSUMER leg: the AEAD of the GM TLS suites, directly and through the suite table
+	hows := []string{"d"}
+	for _, id := range gmtls.VerifGMGCMSuiteIDs() {
+		hows = append(hows, fmt.Sprintf("%04x", id))
+	}
+	step := func(how string, key, fixed, explicit, aad, pt []byte) string {
+		return fmt.Sprintf("%s:%s:%s:%s:%s:%s", how, hx.Hex(key), hx.Hex(fixed), hx.Hex(explicit), hx.Hex(aad), hx.Hex(pt))
+	}
+	tlsAAD := func(n int) []byte { // seq(8) || type || version || length
+		a := r.Bytes(13)
+		a[8], a[9], a[10], a[11], a[12] = 23, 1, 1, byte(n>>8), byte(n)
+		return a
+	}
+	for _, how := range hows {
+		for _, n := range []int{0, 1, 15, 16, 17, 80, 16384} {
+			emit(fmt.Sprintf("T %d %s", next(), step(how, r.Bytes(16), r.Bytes(4), r.Bytes(8), tlsAAD(n), r.Bytes(n))))
+		}
+		nT := 6
+		if thorough {
+			nT = 60
+		}
+		for i := 0; i < nT; i++ {
+			k1, k2 := r.Bytes(16), r.Bytes(16)
+			f1, f2 := r.Bytes(4), r.Bytes(4)
+			if i%3 == 0 {
+				f2 = flip(f1, r.Intn(32)) // implicit nonces that differ in one bit
+			}
+			var steps []string
+			n := 2 + r.Intn(4)
+			for j := 0; j < n; j++ {
+				key, fixed := k1, f1
+				switch i % 3 {
+				case 0, 1: // the same key with two different implicit nonces (client / server write IV)
+					if j%2 == 1 {
+						fixed = f2
+					}
+				default: // two keys interleaved
+					if j%2 == 1 {
+						key, fixed = k2, f2
+					}
+				}
+				ln := r.Pick([]int{0, 1, 15, 16, 17, 33, 80})
+				steps = append(steps, step(how, key, fixed, r.Bytes(8), tlsAAD(ln), r.Bytes(ln)))
+			}
+			emit(fmt.Sprintf("T %d %s", next(), strings.Join(steps, ",")))
+		}
 	}
 	// every single-bit change of IV, A, C and T for a few messages: the recomputed tag must differ from T
 	// IV lengths 12, 16, 17, 60 (and more in thorough); |A| and |C| cross the 16- and 32-byte boundaries
